@@ -101,6 +101,16 @@ def Statement_generated_prefix_fresh : Prop :=
     (∀ base n fuel num p, pickNumbered (St.init.run ops).store base n fuel num = .fresh p →
         (St.init.run ops).store.namespace p = none ∨ (St.init.run ops).store.namespace p = some [])
 
+/-- The prefix table of one Turtle / N3 / longturtle document (`addNamespace`, which renames
+    `_…` prefixes and prefixes already taken in the document to `p…`): after any history, for any
+    sequence of nodes the serializer meets, every prefixed name `d:l` it produces for an IRI `u`
+    expands through the document's own final `@prefix` table back to `u` — the table gives `d`
+    exactly one namespace `n` (it is a dict) and `n ++ l = u`. -/
+def Statement_document_names_expand : Prop :=
+  ∀ (ops : List Op) (i : Bool) (qs : List (Str × Bool)) (d : Doc) (names : List (Str × Str × Str)),
+    (serDoc qs (St.init.run ops).store ((St.init.run ops).mgr i) Doc.empty []).2.2 = .ok (d, names) →
+      ∀ u dp l, (u, dp, l) ∈ names → ∃ n, alookup d.table dp = some n ∧ n ++ l = u
+
 /-! ### Proofs -/
 
 theorem bind_bijective : Statement_bind_bijective :=
@@ -124,6 +134,12 @@ theorem expand_inverse : Statement_expand_inverse := by
 
 theorem split_spec : Statement_split_spec :=
   fun _ _ _ _ h => ⟨splitUri_append h, splitUri_shape h⟩
+
+theorem document_names_expand : Statement_document_names_expand := by
+  intro ops i qs d names h
+  have hi := HInv.run ops HInv.init
+  exact (serDoc_all qs _ _ Doc.empty [] (hi.mgr i).1 (hi.mgr i).2
+    (by intro u dp l hm; exact absurd hm (by simp))).2 d names h
 
 theorem longest_is_longest : Statement_longest_is_longest := getLongest_build
 
@@ -169,6 +185,16 @@ example : getLongest iriX (exKnown.foldl insertForest []) = some nsEa := by deci
 example : getLongest (nsEa ++ [98, 47, 120]) (exKnown.foldl insertForest []) = some (nsEa ++ [98, 47]) := by decide
 example : getLongest [117, 114, 110, 58] (exKnown.foldl insertForest []) = none := by decide
 example : pickNs (St.init.run exHist).store 3 1 = some [110, 115, 49] := by decide
+
+/-- `_v` (renamed `p_v` in the document) together with a real `p_v` for another namespace, the `_v`
+    term met first: the real `p_v` is written as `pp_v` and both names expand to their IRIs -/
+def sUv : Str := [95, 118]
+def sPv : Str := [112, 95, 118]
+def exCollide : List Op := [.bind false (some sUv) nsE true false, .bind false (some sPv) nsEa true false]
+example : ((St.init.run exCollide).step (.serdoc false [(nsE ++ [115], false), (iriX, true)])).2 =
+    .doc [(sPv, nsE), (112 :: sPv, nsEa)] := by decide
+example : ((St.init.run exCollide).step (.serdoc false [(iriX, true), (nsE ++ [115], false)])).2 =
+    .doc [(sPv, nsEa), (112 :: sPv, nsE)] := by decide
 
 /-- The non-override branch of `Memory.bind` as it was before the `fix:` commit: with `p → n1`,
     `q → n2`, `bind(p, n2, override=False)` left a listing that is not a bijection. -/
